@@ -225,7 +225,13 @@ func runSignTape(fx *world.Fixture, p tPlan, root string, stepCheck bool) *tObs 
 				}
 			}
 		}
-		if nextBatch < nb && w.StateOf(p.Batches[nextBatch].Proposer, fx.Round) == "stage_signing_idle" && w.Lag(p.Batches[nextBatch].Proposer) == 0 {
+		// proposals are posted at message level: besides an idle proposer (what the API demands) a proposer whose node
+		// still shows the cancelled batch may post one - the cancelled state is left on the next message of the round,
+		// which may be that very proposal
+		if ps := ""; nextBatch < nb && w.Lag(p.Batches[nextBatch].Proposer) == 0 && func() bool {
+			ps = w.StateOf(p.Batches[nextBatch].Proposer, fx.Round)
+			return ps == "stage_signing_idle" || strings.HasPrefix(ps, "state_signing_partial_signs_await_cancelled")
+		}() {
 			acts = append(acts, act{"propose", p.Batches[nextBatch].Proposer, nextBatch})
 		}
 		for key := range genuine {
@@ -323,6 +329,11 @@ func runSignTape(fx *world.Fixture, p tPlan, root string, stepCheck bool) *tObs 
 				fmt.Sscanf(step, "A%d:%d", &b, &i)
 				pollEager(i)
 				if pendingSigningOp(w, i, obs.BatchIDs[b]) == nil {
+					if models[i].Started[obs.BatchIDs[b]] && !answered[fmt.Sprintf("%d/%d", b, i)] {
+						// the node accepted the proposal (it created the signing request then) and the operator has not answered it
+						obs.Viol = violf("pending-operation-vanished", "participant %d's node accepted the proposal of batch %d but no longer offers its signing operation at script step %q (history: %v)", i, b, step, tailStr(obs.History, 12))
+						return obs
+					}
 					obs.Err = fmt.Errorf("script: participant %d has no pending operation for batch %d at %q", i, b, step)
 					return obs
 				}
@@ -373,6 +384,19 @@ func runSignTape(fx *world.Fixture, p tPlan, root string, stepCheck bool) *tObs 
 			break
 		}
 	}
+	// a signing request leaves the pool only by being answered: whoever never answered a batch its node accepted
+	// (silent operators; anybody whose request could not be answered) must still be offered that request
+	for b := range p.Batches {
+		for i := 0; i < p.N && obs.Viol == nil; i++ {
+			key := fmt.Sprintf("%d/%d", b, i)
+			if models[i].Started[obs.BatchIDs[b]] && !answered[key] && !reported[key] && pendingSigningOp(w, i, obs.BatchIDs[b]) == nil {
+				obs.Viol = violf("pending-operation-vanished", "participant %d's node accepted the proposal of batch %d and its operator never answered it, but the node no longer offers the signing operation (history: %v)", i, b, tailStr(obs.History, 14))
+			}
+		}
+	}
+	if obs.Viol != nil {
+		return obs
+	}
 	// which batches were accepted / cancelled according to the common history (node 0's model after everything)
 	for b := range p.Batches {
 		obs.Accepted[b] = models[0].Started[obs.BatchIDs[b]]
@@ -417,6 +441,9 @@ func tailStr(xs []string, n int) []string {
 
 // c07Judge: bounded liveness at quiescence.
 func c07Judge(o *tObs) *viol {
+	if o.Viol != nil {
+		return o.Viol
+	}
 	if o.Err != nil {
 		return violf("harness", "%v", o.Err)
 	}
